@@ -162,7 +162,17 @@ def env_class(jinja2, name):
     return getattr(sb, name)
 
 
+def resolve_autoescape(jinja2, autoescape):
+    """False / True / "select" (select_autoescape(['html'])) / "lambda" (a callable: on for *.html names)"""
+    if autoescape == "select":
+        return jinja2.select_autoescape(["html"])
+    if autoescape == "lambda":
+        return lambda name: bool(name) and name.endswith(".html")
+    return autoescape
+
+
 def make_env(jinja2, cls, templates, is_async, autoescape=False, **kw):
+    autoescape = resolve_autoescape(jinja2, autoescape)
     e = env_class(jinja2, cls)(loader=jinja2.DictLoader(dict(templates)), enable_async=is_async, autoescape=autoescape,
                                extensions=EXTENSIONS, **kw)
     return e
